@@ -69,12 +69,12 @@ def _gen_auth_adapter(rng):
     # small pools: same login with another password, tokens without description etc. do occur
     kind = rng.choice(["bauth", "bauth", "token", "client"])
     if kind == "bauth":
-        return {"a": "auth", "kind": kind, "login": rng.choice(["user", "root"]), "password": rng.choice(["pw1", "pw2", "p:w"])}
+        return {"a": "auth", "kind": kind, "login": rng.choice(["user", "root"]), "password": rng.choice(["pw1", "pw2", "p:w", "p@ss w%rd|", ""])}
     if kind == "token":
-        return {"a": "auth", "kind": kind, "token": rng.choice(["tokA", "tokB", "a.b.c"]),
+        return {"a": "auth", "kind": kind, "token": rng.choice(["tokA", "tokB", "a.b.c", "t|k:1", "50%&x=y", "two words", "{j}~+/=="]),
                 "token_descr": rng.choice([None, None, "descr"])}
-    return {"a": "auth", "kind": kind, "client_name": rng.choice(["cl", "cl2"]), "client_id": rng.choice(["cid", "c/id"]),
-            "client_secret": rng.choice(["s3cr3t", "other"])}
+    return {"a": "auth", "kind": kind, "client_name": rng.choice(["cl", "cl2"]), "client_id": rng.choice(["cid", "c/id", "c id|1"]),
+            "client_secret": rng.choice(["s3cr3t", "other", "s:e c%r&t="])}
 
 
 _POOL = []      # adapter specs with a pool key generated so far in this run (reset by generate)
@@ -301,7 +301,7 @@ def generate(rng, tier):
                 op["client_name"], op["client_id"], op["client_secret"] = "cl", rng.choice(["cid", "c/id"]), "s3cr3t"
                 g.auth = True
             elif kind == "token":
-                op["token"] = rng.choice(["tok123", "a.b.c"])
+                op["token"] = rng.choice(["tok123", "a.b.c", "t|k:2", "50%&x", "two  words", "!{j}*"])
                 op["token_descr"] = rng.choice([None, "descr"])
                 g.auth = True
             else:
